@@ -1,5 +1,6 @@
 mod chain;
 mod evm;
+mod evmgen;
 mod fees;
 mod fidelity;
 mod framework;
@@ -51,6 +52,8 @@ fn main() {
             std::process::exit(props::dispatch(&cfg));
         }
         "selftest" => std::process::exit(selftest::run()),
+        "evmrun" => std::process::exit(props::c17::evmrun(&args[2], args.get(3).map(|s| s.as_str()).unwrap_or(""))),
+        "evmdiff" => std::process::exit(props::c17::evmdiff(&args[2], args.get(3).map(|s| s.as_str()).unwrap_or(""))),
         "replay" => {
             if args.len() < 4 {
                 usage();
